@@ -23,8 +23,13 @@ type c18Case struct {
 
 func c18Scenario(cs c18Case) *explore.Scenario {
 	var path string
-	if cs.Source == "file" {
+	switch cs.Source {
+	case "file":
 		path = WriteScratch("c18/"+strings.Join(cs.Entries, "_")+".txt", strings.Join(cs.Entries, "\n")+"\n")
+	case "file-no-final-newline":
+		path = WriteScratch("c18/"+strings.Join(cs.Entries, "_")+".nonl.txt", strings.Join(cs.Entries, "\n"))
+	case "file-crlf":
+		path = WriteScratch("c18/"+strings.Join(cs.Entries, "_")+".crlf.txt", strings.Join(cs.Entries, "\r\n")+"\r\n")
 	}
 	want := map[string]bool{}
 	var re *regexp.Regexp
@@ -55,7 +60,7 @@ func c18Scenario(cs c18Case) *explore.Scenario {
 			switch cs.Source {
 			case "comma":
 				d = discovery.New("", strings.Join(cs.Entries, ","), discovery.Shuffle)
-			case "file":
+			case "file", "file-no-final-newline", "file-crlf":
 				d = discovery.New("", path, discovery.Shuffle)
 			case "module":
 				discovery.VerifServers = cs.Entries
@@ -100,7 +105,7 @@ func init() {
 	Register(&Check{
 		ID:    "C18",
 		Level: "model_checking",
-		Rule: "all server lists of length 1..5 (quick) / 1..6 (thorough) over {a, b, c:2222, a.dom} (so all duplicate patterns), given as comma list, as server file and through a discovery " +
+		Rule: "all server lists of length 1..5 (quick) / 1..6 (thorough) over {a, b, c:2222, a.dom} (so all duplicate patterns), given as comma list, as server file (newline-terminated, without final newline, CRLF) and through a discovery " +
 			"module with the filters none, /a/, /^c/, /x/, /./; every random number the shuffle draws is an environment choice and ALL answer sequences are explored " +
 			"(complete tree, no bound); oracle: returned multiset == distinct entries matching the filter; distinct = distinct (case, returned order) pairs",
 		Assumptions: []string{"math/rand is replaced by an explorer-owned choice; regexp is trusted"},
@@ -112,7 +117,7 @@ func init() {
 			lists := c18Lists(n)
 			for _, l := range lists {
 				var cases []c18Case
-				cases = append(cases, c18Case{"comma", l, ""}, c18Case{"file", l, ""})
+				cases = append(cases, c18Case{"comma", l, ""}, c18Case{"file", l, ""}, c18Case{"file-no-final-newline", l, ""}, c18Case{"file-crlf", l, ""})
 				for _, f := range []string{"", "/a/", "/^c/", "/x/", "/./"} {
 					cases = append(cases, c18Case{"module", l, f})
 				}
